@@ -87,6 +87,10 @@ class State(object):
         self.n_conn = 0
 
 
+# mechanisms explored one event deeper in the thorough tier
+DEPTH4 = {"tls12-both": 4, "tls13-psk": 4, "tls12-ticket-clientauth": 4}
+
+
 def scen_of(mech):
     return S.Scen("c13", version=mech["version"], suite=mech["suite"],
                   cred="rsa", client_cred=mech.get("client_cred"),
@@ -600,7 +604,8 @@ def run(res, tier, seed):
         "every history of events {connect(10 offer variants), close(clean / "
         "fatal alert / abrupt), tick(1, ticketLifetime+1, cache maxAge+1, "
         "7d+1), ticket-key rotation (prepend / replace), cache eviction} up "
-        "to depth d (3 quick, 4 thorough) starting with an initial full "
+        "to depth d (3; thorough: 4 for TLS1.2 ID+ticket, TLS1.3 PSK and "
+        "ticket+client-auth, 3 for the others) starting with an initial full "
         "handshake, for each resumption mechanism (TLS1.2 session ID, "
         "TLS1.2 ticket, both, TLS1.0 ID, TLS1.3 PSK, with client "
         "certificates); each connect is two live endpoints; states = "
@@ -614,11 +619,12 @@ def run(res, tier, seed):
         # every history starts with a fresh full handshake, then the first
         # explored event
         for ev in events(tier):
-            items.append((m, ev, depth, seed, tier))
+            items.append((m, ev, DEPTH4.get(m, 3) if tier == "thorough"
+                          else depth, seed, tier))
             if MECHS[m]["cache"] and (tier == "thorough" or m in (
                     "tls12-id", "tls10-id")):
                 # the same from a server whose session cache already wrapped
-                items.append((m, ev, depth, seed, tier, ("evict",)))
+                items.append((m, ev, 3, seed, tier, ("evict",)))
     # histories start from connect(none): wrap
     states = trans = 0
     resum = fb = 0
@@ -643,7 +649,9 @@ def run(res, tier, seed):
     res.coverage["states"] = states
     res.coverage["transitions"] = trans
     res.coverage["traces_validated_against_impl"] = trans
-    res.section("histories", mechanisms=mechs, depth=depth, states=states,
+    res.section("histories", mechanisms=mechs,
+                depth=dict((m, DEPTH4.get(m, 3) if tier == "thorough"
+                            else depth) for m in mechs), states=states,
                 transitions=trans, resumed_connections=resum,
                 full_handshake_fallbacks=fb)
     res.coverage["distinct_nontrivial"] = states
